@@ -264,10 +264,21 @@ CLAIMED = {
              "(termination), every error carries a position, and that position lies inside the expression (Props/C16.lean). "
              "Token classes, literal tokens, function arities, axis attribute names and node-type tests are regenerated from "
              "/repo on every run. Tie to code: outcome class, position, rendered message and AST of the real parse() vs the "
-             "compiled model on token soups, truncations and mutations of valid expressions, bracket nests; cache-order "
-             "independence is exercised on the implementation (cold/warm lru caches, random orders, evaluate after parse).",
+             "compiled model on token soups, truncations and mutations of valid expressions, bracket nests. Caching: an lru "
+             "cache in front of a function is modelled (Model/Cache.lean) and proved unobservable for every history of calls "
+             "and cache_clear()s and every maxsize - every call answers what the function answers, errors are never stored, "
+             "every reachable cache holds only values of the function and at most maxsize of them (c16_cache_transparent, "
+             "c16_cache_sound, c16_cache_bounded, c16_cached_parse_is_fresh); that the shared objects handed out are never "
+             "changed is a translator obligation re-derived from /repo's source on every run (harness/gen_cache_skeleton.py "
+             "-> Generated/CacheSkeleton.lean: every lru_cache/cache-decorated function of the XPath package stores into "
+             "nothing it receives; no function of _delb/xpath/ast.py outside the constructors stores into an expression "
+             "object; the memoised properties are the three known ones: c16_cache_sites, c16_ast_immutable). Cache-order "
+             "independence is also exercised on the implementation (cold/warm lru caches, random orders, evaluate after "
+             "parse, evaluation in other namespace contexts before).",
         note=TB + "CPython resource limits (recursion depth for very deep bracket nesting) are outside the model; strings are "
-             "sequences of Unicode scalar values.",
+             "sequences of Unicode scalar values. The immutability scan is syntactic (assignments, deletions and mutating "
+             "container calls rooted in self, a parameter or a non-local name); functools.lru_cache itself is modelled, not "
+             "verified.",
         technique="Lean 4 theorems over a line-by-line parser model (induction on fuel, token-tree well-formedness invariant) + translator-generated tables + differential correspondence",
         design="3/C16",
     ),
